@@ -52,29 +52,38 @@ def spaces (n : Nat) : Bytes := List.replicate n 0x20
 /-- `strings.Repeat(" ", n)`; panics for negative `n` -/
 def repeatSp (n : Int) : Option Bytes := if n < 0 then none else some (spaces n.toNat)
 
-/-- `Parser.writeHelpOption` -/
-def writeHelpOption (P : Parser) (r : ORef) (info : AlignInfo) : Option Bytes :=
-  let o := P.opt r
-  if o.hidden then some [] else
+/-- the part of an option's help row before the description: padding, short name, long name,
+    `=value-name[choices]` -/
+def helpOptionHead (o : Opt) (longNS : Bytes) (info : AlignInfo) : Bytes :=
   let prefixN := 2 + (if info.indent then 4 else 0)
   let line := spaces prefixN
   let line := line ++ (if o.short ≠ 0 then 0x2D :: encodeRune o.short else if info.hasShort then B "  " else [])
-  let descstart := info.descriptionStart + 2
   let line := line ++ (if o.long ≠ [] then
-      (if o.short ≠ 0 then B ", " else if info.hasShort then B "  " else []) ++ B "--" ++ P.longNS r
+      (if o.short ≠ 0 then B ", " else if info.hasShort then B "  " else []) ++ B "--" ++ longNS
     else [])
-  let line := line ++ (if o.ty.canArgument then 0x3D :: (o.valueName ++ choicesText o) else [])
-  let written : Int := runeCount line
+  line ++ (if o.ty.canArgument then 0x3D :: (o.valueName ++ choicesText o) else [])
+
+/-- the description text: description, default (or its mask), environment variable -/
+def helpOptionDesc (o : Opt) (envKey : Bytes) : Bytes :=
+  let dflt := if o.defaultMask ≠ [] then (if o.defaultMask ≠ B "-" then o.defaultMask else []) else o.defaultLiteral
+  let envDef := if envKey ≠ [] then B " [$" ++ envKey ++ B "]" else []
+  if dflt ≠ [] then o.desc ++ B " (default: " ++ dflt ++ B ")" ++ envDef else o.desc ++ envDef
+
+/-- one option row of the help, as a function of the option record and its two derived names -/
+def helpOptionText (o : Opt) (longNS envKey : Bytes) (info : AlignInfo) : Option Bytes :=
+  if o.hidden then some [] else
+  let line := helpOptionHead o longNS info
+  let descstart := info.descriptionStart + 2
   if o.desc ≠ [] then
-    match repeatSp (descstart - written) with
+    match repeatSp ((descstart : Int) - runeCount line) with
     | none => none
     | some pad =>
-      let dflt := if o.defaultMask ≠ [] then (if o.defaultMask ≠ B "-" then o.defaultMask else []) else o.defaultLiteral
-      let envKey := P.envKeyNS r
-      let envDef := if envKey ≠ [] then B " [$" ++ envKey ++ B "]" else []
-      let desc := if dflt ≠ [] then o.desc ++ B " (default: " ++ dflt ++ B ")" ++ envDef else o.desc ++ envDef
-      some (line ++ pad ++ wrapText desc ((info.cols : Int) - descstart) (spaces descstart) ++ [0x0A])
+      some (line ++ pad ++ wrapText (helpOptionDesc o envKey) ((info.cols : Int) - descstart) (spaces descstart) ++ [0x0A])
   else some (line ++ [0x0A])
+
+/-- `Parser.writeHelpOption` -/
+def writeHelpOption (P : Parser) (r : ORef) (info : AlignInfo) : Option Bytes :=
+  helpOptionText (P.opt r) (P.longNS r) (P.envKeyNS r) info
 
 /-- stable sort of the visible subcommands of `ci` by name -/
 def insertCmdSorted (P : Parser) (x : Nat) : List Nat → List Nat
